@@ -94,7 +94,10 @@ PairValues(w) == {0, 1, MaxOf(w) - 1, MaxOf(w)}
 FieldPairFaults(seed) ==
   LET lay == Layout(seed.ext, seed.name, seed.head, seed.tail, seed.len)
       num == {j \in 1..Len(lay) : lay[j][4] /\ lay[j][2] >= 0 /\ lay[j][2] + lay[j][3] <= seed.len}
-  IN UNION { UNION { { [seed |-> seed.name, kind |-> "set2", at |-> 0, off |-> lay[i][2], width |-> lay[i][3], val |-> v, field |-> lay[i][1],
-                        off2 |-> lay[j][2], width2 |-> lay[j][3], val2 |-> v2] : v \in PairValues(lay[i][3]), v2 \in PairValues(lay[j][3]) }
+      \* end of the numeric header: the file cut there has a header and nothing else ("declared sizes x no data")
+      hdrEnd == LET ends == {lay[j][2] + lay[j][3] : j \in {k \in num : lay[k][2] + lay[k][3] <= Len(seed.head)}} IN
+                IF ends = {} THEN 0 ELSE CHOOSE e \in ends : \A f \in ends : f <= e
+  IN UNION { UNION { { [seed |-> seed.name, kind |-> "set2", at |-> cut, off |-> lay[i][2], width |-> lay[i][3], val |-> v, field |-> lay[i][1],
+                        off2 |-> lay[j][2], width2 |-> lay[j][3], val2 |-> v2] : v \in PairValues(lay[i][3]), v2 \in PairValues(lay[j][3]), cut \in {0, hdrEnd} }
                      : j \in {k \in num : k > i} } : i \in num }
 =============================================================================
